@@ -1,6 +1,7 @@
 import Casket.Proofs.Parser
 import Casket.Proofs.ParserTerm
 import Casket.Proofs.ParserTotal
+import Casket.Proofs.ParserMono
 import Casket.Proofs.ParserRT
 import Casket.Proofs.ParserSplice
 import Casket.Proofs.ParserCycle
@@ -103,6 +104,44 @@ theorem C10_parse_total_files_partial (cfg : Cfg) (fuel : Nat) (fn : String) (in
 example : Hyp { fs := selfFS, envFuel := 3 } (lex sImportF0) ∧
     (lex sImportF0).length * (Lmax { fs := selfFS, envFuel := 3 } + 2) ^ selfFS.files.length < 9 :=
   ⟨hyp_of_noRef _ _ rfl (by decide) (by decide), by decide⟩
+
+/-- Termination, snippets included.  For every input and every finite set of files — imports of files, globs and
+snippets nested to any depth, import cycles of every shape (file → file, snippet → snippet, mixed), any number of
+snippet definitions, in the input or in imported files — the repaired parser returns: there is a fuel `f0` from which
+on the answer is server blocks or an error, never `timeout`, never `panic`, and it no longer depends on the fuel.
+PARTIAL only in this: `HypS` asks that the environment replacement of every source token ends — the excluded point is
+the known finding F19 (a value that refers to its own variable loops in `replaceEnvReferences`); `cycleCheck = true`
+selects the parser after the `fix:` commit (`C10_cycle_diverges_unfixed` is the parser before it).
+Proof (Proofs/ParserTotal.lean, Proofs/ParserMono.lean): a snippet is defined only by `begin`, called from the loop of
+`parseAll`, so between two definitions the snippet table is constant and the weight argument of
+`C10_parse_total_files_partial` applies with the snippets counted among the sources (N = files + snippets, L = file
+tokens + snippet body tokens; `resolveImport_tm`, `push_measure`); a definition changes the weights, but a name is
+defined at most once (`snippet-redeclared`) and is the expansion of a source token (`candNames`), so `parseAll_total` is
+a lexicographic induction over (candidate names not yet defined, weight ahead); the fuel is existential and
+`parse_mono` (same answer at any larger fuel) glues the phases together. -/
+theorem C10_parse_total_partial (cfg : Cfg) (fn : String) (input : Bytes) (hyp : HypS cfg (lex input)) :
+    ∃ f0, ∀ fuel, f0 ≤ fuel →
+      ((∃ bs, parse cfg fuel fn input = .ok bs) ∨ (∃ c f l, parse cfg fuel fn input = .err c f l)) ∧
+      parse cfg fuel fn input = parse cfg f0 fn input := by
+  obtain ⟨f0, h0⟩ := parse_total cfg fn input hyp
+  refine ⟨f0, fun fuel hf => ⟨?_, Res.le_eq (parse_mono cfg f0 fuel hf fn input) (h0 f0 (Nat.le_refl _)).ne_timeout⟩⟩
+  have h := h0 fuel hf
+  cases hr : parse cfg fuel fn input with
+  | ok bs => exact Or.inl ⟨bs, rfl⟩
+  | err c f l => exact Or.inr ⟨c, f, l, rfl⟩
+  | panic m => exact absurd hr (C10_parse_no_panic cfg fuel fn input m)
+  | timeout => rw [hr] at h; exact h.elim
+
+/-- non-vacuity: `(a) {⏎ import f0⏎}⏎host {⏎ import a⏎}` with the file `f0` = `import a⏎` — a snippet whose body imports a
+file that imports the snippet again — satisfies the hypothesis; it DEFINES a snippet (`candNames`), so it is outside
+`C10_parse_total_files_partial`; the answer is the cycle error -/
+example :
+    let cfg : Cfg := { fs := ⟨[("f0", [0x69, 0x6D, 0x70, 0x6F, 0x72, 0x74, 0x20, 0x61, 0x0A])]⟩, envFuel := 3 }
+    let input : Bytes := [0x28, 0x61, 0x29, 0x20, 0x7B, 0x0A, 0x20, 0x69, 0x6D, 0x70, 0x6F, 0x72, 0x74, 0x20, 0x66, 0x30, 0x0A, 0x7D, 0x0A,
+      0x68, 0x6F, 0x73, 0x74, 0x20, 0x7B, 0x0A, 0x20, 0x69, 0x6D, 0x70, 0x6F, 0x72, 0x74, 0x20, 0x61, 0x0A, 0x7D]
+    HypS cfg (lex input) ∧ candNames cfg (lex input) = [[0x61]] ∧
+    answerOf (parse cfg 40 "Casketfile" input) = .error "import-cycle" "f0" 1 :=
+  ⟨hypS_of_noRef _ _ rfl (by decide) (by decide), by decide, by decide⟩
 
 /-- the hypothesis is decidable for texts without `{%` / `{$`, and it holds for ordinary configurations:
 `host {⏎ dir "a b" {⏎  x⏎ }⏎}` (a test of non-vacuity) -/
